@@ -38,7 +38,19 @@ WITNESS_TEXTS = [
     '(sys_platform != "win32" and sys_platform != "linux" and os_name == "nt") or ((sys_platform == "aix" or sys_platform == "cygwin") and os_name == "posix")',
     '(sys_platform != "win32" and sys_platform != "linux" and os_name == "nt") or ((sys_platform == "linux" or sys_platform == "win32") and os_name == "posix")',
     '(sys_platform == "win32" or sys_platform == "linux" or os_name == "nt") and ((sys_platform != "linux" and sys_platform != "cygwin") or os_name == "posix")',
+    # two conjunctions (dually: two disjunctions) sharing two atoms, each with one more atom on a variable of its own, in both orders: only() without
+    # one of the own variables makes one member a strict subset of the other inside of() - the subset rules of union_simplify / intersect_simplify
+    # (round-9 C12 seed: the rule returned the wrong operand, visible only for the later member)
+    'os_name == "a" and sys_platform == "x" and platform_machine == "b" or os_name == "a" and sys_platform == "x" and implementation_name == "cpython"',
+    'os_name == "a" and sys_platform == "x" and implementation_name == "cpython" or os_name == "a" and sys_platform == "x" and platform_machine == "b"',
+    '(os_name == "a" or sys_platform == "x" or platform_machine == "b") and (os_name == "a" or sys_platform == "x" or implementation_name == "cpython")',
+    '(os_name == "a" or sys_platform == "x" or implementation_name == "cpython") and (os_name == "a" or sys_platform == "x" or platform_machine == "b")',
+    'os_name == "a" and sys_platform == "x" and platform_machine == "b" or os_name == "a" and sys_platform == "x"',
+    'os_name == "a" and sys_platform == "x" or os_name == "a" and sys_platform == "x" and platform_machine == "b"',
 ]
+
+
+WITNESS_SET = set(WITNESS_TEXTS)
 
 
 def build_pool(rng, tier):
@@ -248,6 +260,8 @@ def run(tier="quick", seed=0, arg=None):
             vs = sorted(OM.variables(m))
             vm = vec(m)
             subsets = ([vs[:1], vs[1:], vs] if vs else [[]]) + [[ALL_VARIABLES[(i + j) % len(ALL_VARIABLES)] for j in range(2)] + vs[:1]]
+            if tm in WITNESS_SET and 2 <= len(vs) <= 5:       # the witness shapes: also every subset that leaves out exactly one variable
+                subsets += [vs[:k] + vs[k + 1:] for k in range(1, len(vs))]
             for names in subsets:
                 evals += 1
                 try:
